@@ -76,6 +76,10 @@ func VerifC04Entry() {
 func verifWitnessData(decodeErr, flattenErr bool) string {
 	switch {
 	case decodeErr:
+		// the decoder model also says whether More() saw anything: "no" is an empty / blank text
+		if _, asked := v.ReplayInput("v.decode.more"); asked && v.ReplayInt("v.decode.more") == 0 {
+			return " \n"
+		}
 		return "#%RAML 1.0\ntitle: not json"
 	case flattenErr:
 		return `{"@context": 42, "@id": "x"}`
